@@ -52,6 +52,11 @@ class Ctx:
         self.notes = []
         self.broken = []       # analysis-broken reasons
         self.t0 = time.time()
+        ren = getattr(program, "renamed", None) or []
+        if ren and pid != "CTL":
+            self.assume("file-local symbols re-identified against the pinned tree and analysed under their baseline names: " +
+                        "; ".join("%s %s %s <- %s%s" % (rf, kind, old, new, " (parameter order restored)" if perm else "")
+                                  for rf, kind, old, new, perm in ren[:60]))
 
     # -- obligations
     def ob(self, rule, key, where, what, ok, how="", nontrivial=True, witness=None):
